@@ -408,6 +408,17 @@ func driveVSSWire(rc *RunCtx) {
 					rc.Fail("share-does-not-verify", "dealer %s: the library's Share.Verify rejects share %d under its own id", dealer.Name, j)
 					return
 				}
+				// altered share values under the right id: +1, and the additive inverse (whose image is the
+				// negated point: same x coordinate on secp256k1, same y on edwards25519)
+				for name, alt := range map[string]*big.Int{"share+1": new(big.Int).Add(vals[j], big.NewInt(1)), "q-share": new(big.Int).Mod(new(big.Int).Neg(vals[j]), q)} {
+					if alt.Cmp(new(big.Int).Mod(vals[j], q)) == 0 {
+						continue
+					}
+					if (&vss.Share{Threshold: t, ID: new(big.Int).Set(ids[j]), Share: alt}).Verify(libCurve, t, libVs) {
+						rc.Fail("altered-share-verifies", "dealer %s: the library's Share.Verify accepts share %d altered to %s", dealer.Name, j, name)
+						return
+					}
+				}
 				for k := range ids {
 					if k == j {
 						continue
